@@ -301,6 +301,34 @@ def onlyParseInsideChdir (pre loopBody post : List Step) : Bool :=
   (insideChdir pre false).all (fun s => s.what == "parser.parse") && !(insideChdir pre false).isEmpty &&
   (loopBody ++ post).all (fun s => s.kind != .chdirEnter && s.kind != .osChdir)
 
+/-! ### where the parse (and with it the formatting stage) runs -/
+
+/-- the working directory after the given steps when none of them fails: the bookkeeping of `step1`, nothing else -/
+def cwdTrack (chdirSteps : List CStep) : Cwd → List Step → Cwd
+  | cwd, [] => cwd
+  | cwd, s :: rest =>
+    match s.kind with
+    | .chdirEnter => cwdTrack chdirSteps (cwdInside chdirSteps) rest
+    | .chdirExit => cwdTrack chdirSteps (cwdAfter chdirSteps none) rest
+    | .osChdir => cwdTrack chdirSteps .target rest
+    | _ => cwdTrack chdirSteps cwd rest
+
+/-- the steps of a segment that come before the first step named `w` -/
+def stepsBefore (w : String) (steps : List Step) : List Step := steps.takeWhile (fun s => s.what != w)
+
+def noEncodeCheck (steps : List Step) : Bool := steps.all (fun s => s.kind != .encodeCheck)
+
+/-- Reviewed shape of the part of `generate()` that decides WHERE the formatters look for their configuration
+(`CodeFormatter.__init__`: `settings_path = Path.cwd()` when none is given; isort's first-party detection and the `ruff`
+child processes use the process's working directory): there is exactly one `with chdir(…)` region, it is entered with the
+source text `chdir(output)`, the one step inside it is `parser.parse()`, `parse()` is not handed a settings path (or an
+opaque `**` splat / positional argument), and the context manager switches to `path if path.is_dir() else path.parent`. -/
+def parseInsideChdirOutput (pre : List Step) (chdirSome : List CStep) (parseArgs : List String) : Bool :=
+  (pre.filter (fun s => s.kind == .chdirEnter)).map (·.what) == ["chdir(output)"] &&
+  (insideChdir pre false).map (fun s => (s.kind, s.what)) == [(.mayRaise, "parser.parse")] &&
+  !parseArgs.contains "settings_path" && !parseArgs.contains "**" && !parseArgs.contains "<positional>" &&
+  (chdirSome.filter (fun c => c.kind == .chdirTarget)).map (·.what) == ["path if path.is_dir() else path.parent"]
+
 def keyUnderOutput (e : String) : Bool := e == "output" || e == "output.joinpath(*name)"
 
 def EncodableAll (env : Env) : Prop := ∀ m ∈ env.mods, env.encodable m.2 = true
